@@ -4,7 +4,8 @@
 From Coq Require Import ZArith QArith Bool List Lia Sorting.Sorted.
 From DC Require Import Model.Base Model.Loc Model.MSpace Model.Solver
                        Proofs.MSpaceDefs Proofs.MSpaceA Proofs.MSpaceB Proofs.MSpaceC
-                       Proofs.SolverA Proofs.SolverB Proofs.SolverC Proofs.SolverD.
+                       Proofs.SolverA Proofs.SolverB Proofs.SolverC Proofs.SolverD
+                       Model.Specs Proofs.SpecsDefs Proofs.Builtins.
 Import ListNotations.
 Open Scope Z_scope.
 
@@ -67,3 +68,34 @@ End AnySpecifications.
 Print Assumptions C03_optimize_never_lowers_the_weighted_total.
 Print Assumptions C03_repeated_optimize_never_lowers_the_total.
 Print Assumptions C03_local_searches_never_lower_the_local_total.
+
+
+(* ---- Built-in classes: [faithful] is a theorem, not an assumption ----
+   Instance of the solver: specification type = the modelled built-in classes (Model/Specs.v),
+   evaluate/localized = their models, already-initialised specifications (re-initialisation is the
+   identity), boosts 1.  For every class with the C09 law (all modelled classes except
+   UniquifyAllKmers and AvoidHairpins) [faithful] follows from C09, hence: *)
+Theorem C03_builtin_objectives_are_faithful : forall (space : mspace) (n : Z) (ob : Specs.spec),
+  b09_class ob = true -> wf_spec ob n -> b09_side ob -> evaluable ob n ->
+  faithful Specs.spec b_ev Specs.localized b_reinit b_boost space n ob.
+Proof. exact builtin_faithful. Qed.
+Print Assumptions C03_builtin_objectives_are_faithful.
+
+Theorem C03_builtin_optimize_never_lowers_the_total :
+  forall (enforced : Specs.spec -> bool) (best : Specs.spec -> option Q) (passive : Specs.spec -> bool)
+         (space : mspace) (n : Z),
+    wf_space space -> (forall c, In c (choices_list space) -> cend c <= n) ->
+    forall cfg (cs objs : list Specs.spec) st o st',
+    (forall ob, In ob objs -> b09_class ob = true /\ wf_spec ob n /\ b09_side ob /\ evaluable ob n) ->
+    state_good Specs.spec space n st ->
+    optimize Specs.spec b_ev Specs.localized b_reinit enforced best b_boost passive (fun _ => None)
+             cfg space cs objs st = (o, st') ->
+    (total Specs.spec b_ev b_boost objs (cur _ st) <= total Specs.spec b_ev b_boost objs (cur _ st'))%Q.
+Proof. exact builtin_optimize_never_lowers_total. Qed.
+Print Assumptions C03_builtin_optimize_never_lowers_the_total.
+
+(* the hypotheses are satisfiable *)
+Example C03_builtin_ex :
+  let ob := SGC (1 # 2) (1 # 2) (Some 4) (mkLoc 0 12 0) in
+  b09_class ob = true /\ wf_spec ob 12 /\ b09_side ob /\ b08_class ob = true /\ b08_side ob.
+Proof. exact builtin_ex. Qed.
